@@ -18,6 +18,18 @@ Per run:  (1) source-shape obligations: the formula lines of _lncomb/_cached_pro
               only in the tails of the hypergeometric: exact mask equality against integer binomials and against the Coq model
               (mask-only evaluation, proved equal to the model's mask), data against exact rationals.  A changed formula line of the
               projection code widens this search (every masked position, more sizes) before 'no-failing-input-found' is reported.
+          (5) ARGUMENT / ATTRIBUTE TYPES (gen_types, systematic in every tier): the same logical spectrum and call presented with every
+              type the unchanged library accepts -- the folded flag (constructor argument or attribute) as bool / numpy.bool_ / result of
+              numpy.all / int / numpy.int64 / 0-d bool array / float, both truth values; data as int64 / int32 / float32 / long double /
+              big-endian arrays, nested lists, masked arrays (with and without their own mask), Fortran / transposed / strided /
+              negative-stride / read-only layouts, a Spectrum; masks as bool / int / uint8 arrays, lists, layouts, nomask; sample sizes as
+              list / tuple / ndarray (int64, int32) / lists of numpy integers; pop_ids list / tuple; extrap_x float / numpy floats; the
+              spectrum after copy / deepcopy / pickle / arithmetic / slicing / view / re-wrapping.  One axis at a time from the canonical
+              form over 1-3 dimensional folded and unfolded bases, plus flag x provenance pairs.  Every variant goes through ALL of (2)
+              and (3) (model correspondence with folded = truth value of the flag; fold(project(unfold)); two-stage; axis order; mask
+              spreading) and must equal the canonical form's input and projection.  _cached_projection and _from_count_dict get typed
+              integer arguments on cache keys no other stream touches / that the weight stream verifies afterwards.  TYPE_KINDS is the
+              reviewed table of accepted kinds (what the unchanged library rejects or computes differently is listed there and not compared).
 """
 import ast, itertools, json, math, os
 from fractions import Fraction
@@ -46,6 +58,20 @@ EXPECT_SRC = {
         'contrib = numpy.exp(lncontrib)',
         '_projection_cache[key] = contrib',
         'return contrib'],
+    ('Spectrum', 'project'): [
+        'if len(ns) != self.Npop:',
+        'if numpy.any(numpy.asarray(ns) > numpy.asarray(self.sample_sizes)):',
+        'original_folded = self.folded',
+        'if original_folded:',
+        'output = self.unfold()',
+        'output = self.copy()',
+        'for axis, proj in enumerate(ns):',
+        'if proj != self.sample_sizes[axis]:',
+        'output = output._project_one_axis(proj, axis)',
+        'output.pop_ids = self.pop_ids',
+        'output.extrap_x = self.extrap_x',
+        'return output.fold()',
+        'return output'],
     ('Spectrum', '_project_one_axis'): [
         'proj_from = self.sample_sizes[axis]',
         'for hits in range(proj_from + 1):',
@@ -326,8 +352,28 @@ def gen_prelude(ctx):
         entries = []
         for _ in range(rng.randint(1, 6)):
             entries.append([called, [rng.randint(0, c) for c in called], True, rng.choice([1, 2, 3, 7, 40])])
-        cases.append({'projections': proj, 'entries': entries})
+        # argument types, systematically: every kind of PRELUDE_KINDS is met in every run (12 cases in the quick tier, 11 kinds)
+        cases.append({'projections': proj, 'entries': entries, 'types': PRELUDE_KINDS[len(cases) % len(PRELUDE_KINDS)]})
     return cases
+
+
+def prelude_expected(c):
+    """exact spectrum of _from_count_dict: sum over SNP configurations of count x product over populations of the
+    hypergeometric weights (later duplicates of a configuration replace earlier ones, as in the dictionary)"""
+    proj = c['projections']
+    cd = {(tuple(e[0]), tuple(e[1]), e[2]): e[3] for e in c['entries']}
+    out = []
+    for idx in itertools.product(*[range(p + 1) for p in proj]):
+        tot = Fraction(0)
+        for (called, derived, _pol), cnt in cd.items():
+            w = Fraction(cnt)
+            for a in range(len(proj)):
+                w *= H(called[a], proj[a], derived[a], idx[a])
+                if w == 0:
+                    break
+            tot += w
+        out.append(tot)
+    return out
 
 
 def check_prelude(ctx, cases, res):
@@ -336,10 +382,29 @@ def check_prelude(ctx, cases, res):
         tot = sum({(tuple(e[0]), tuple(e[1]), e[2]): e[3] for e in c['entries']}.values())     # later duplicates replace earlier ones, as in the dictionary
         if ok:
             ok = abs(r['total'] - tot) <= 1e-9 * max(1, tot)
-        ctx.obligation('prelude: _from_count_dict over %d population(s) conserves the SNP count' % len(c['projections']), ok, 'predicate', '' if ok else repr(r))
+        kind = c.get('types', 'canon')
+        ctx.count('prelude_types_' + kind)
+        ctx.obligation('prelude: _from_count_dict over %d population(s) conserves the SNP count (argument types: %s)' % (len(c['projections']), kind), ok, 'predicate', '' if ok else repr(r))
         if not ok:
-            ctx.violation('_from_count_dict (projection of every SNP configuration through the cached weights) does not conserve the number of SNPs: %r instead of %r' % (r, tot),
+            ctx.violation('_from_count_dict (projection of every SNP configuration through the cached weights; argument types: %s) does not conserve the number of SNPs: %r instead of %r' % (kind, r, tot),
                           data={'kind': 'prelude', 'case': c, 'impl': r})
+            continue
+        # every entry against the exact hypergeometric expectation (1e-11 relative, exact zeros), nothing masked, unfolded
+        exp = prelude_expected(c)
+        bad = None
+        if r.get('shape') != [p + 1 for p in c['projections']]:
+            bad = 'shape %r' % (r.get('shape'),)
+        elif any(r['mask']) or r['folded']:
+            bad = 'masked entries / folded flag on a polarized spectrum built with mask_corners=False'
+        else:
+            for k, (e, g) in enumerate(zip(exp, r['data'])):
+                if (e == 0 and g != 0.0) or abs(Fraction(g) - e) > TOL * e:
+                    bad = 'flat entry %d is %r, the exact expectation is %r' % (k, g, float(e)); break
+        ctx.obligation('prelude: _from_count_dict over %d population(s) is the sum of the hypergeometric projections of its SNP configurations (argument types: %s)' % (len(c['projections']), kind),
+                       bad is None, 'predicate', bad or '')
+        if bad:
+            ctx.violation('_from_count_dict with argument types %s (projections %r) is not the sum over SNP configurations of count x hypergeometric weights: %s' % (kind, c['projections'], bad),
+                          data={'kind': 'prelude', 'case': c, 'impl': r, 'exact': [float(e) for e in exp]})
 
 
 def gen_spectra(ctx):
@@ -408,6 +473,156 @@ def gen_spectra(ctx):
     return cases
 
 
+# ----------------------------------------------------------------------------------------------
+# (5) argument / attribute types the API accepts
+
+# Reviewed table: the kinds (constructors in harness/impl/c08_impl.py FLAG / DATA / MASK / NS / IDS / XX / POST) that the UNCHANGED
+# library accepts and treats exactly as the canonical form -- established by running every kind on 1-, 2- and 3-dimensional folded and
+# unfolded spectra against /repo (all give the canonical projection to <= 1e-12).  NOT in the table, hence not compared:
+#   sample sizes / _cached_projection arguments as numpy.uint8 / int8 / int16 (accepted, but scipy's gammaln then works in float32: weights
+#     carry 1e-7 and, computed first, stay in the module cache), numpy.uint64 (uint64 - int64 is a float: TypeError), floats, 0-d arrays
+#     (unhashable cache key), generators / dict views (no len / no comparison);
+#   a spectrum whose mask attribute is numpy.ma.nomask (only reachable through shrink_mask() on a spectrum without masked entries):
+#     _project_one_axis indexes self.mask and raises IndexError;
+#   the 'unspecified' folded marker that __array_finalize__ gives to views of plain arrays (truthy string: not a documented flag value).
+TYPE_KINDS = {
+    'flag': ['bool', 'np_bool', 'np_all', 'int', 'np_int', 'arr0d', 'float'],       # each as constructor argument and as attribute; 'none' = default
+    'data': ['i64', 'i32', 'f32', 'longdouble', 'bigendian', 'list', 'intlist', 'ma_nomask', 'ma_masked', 'fortran', 'transposed',
+             'strided', 'negstride', 'readonly', 'spectrum'],
+    'mask': ['int', 'u8', 'list', 'intlist', 'fortran', 'strided', 'negstride', 'readonly', 'nomask'],
+    'ns': ['tuple', 'arr_i64', 'arr_i32', 'list_i64', 'list_i32', 'tuple_i64', 'list_intp', 'mixed', 'sample_sizes'],
+    'ids': ['tuple'],
+    'xx': ['np_f64', 'np_f32'],
+    'post': ['copy', 'deepcopy', 'pickle', 'mul1', 'add0', 'slice', 'view', 'rewrap', 'astype', 'ma_array'],
+}
+TYPE_WORDS = {'flag': 'the folded flag is given as', 'data': 'the data are given as', 'mask': 'the mask is given as',
+              'ns': 'the sample sizes are given as', 'ids': 'pop_ids is a', 'xx': 'extrap_x is a', 'post': 'the spectrum went through',
+              'via': 'set through'}
+INT_DATA = ('i64', 'i32', 'intlist')
+# (name, shape, ns, mid): every base has a shrinking axis; the 3-D one keeps an unchanged axis (the skip branch of the loop)
+TYPE_BASES = [('1d', [10], [4], [7]), ('2d', [6, 5], [3, 2], [4, 3]), ('3d', [4, 5, 3], [2, 4, 1], [3, 4, 1])]
+PRELUDE_KINDS = ['canon', 'tuple', 'arr_i64', 'arr_i32', 'list_i64', 'list_i32', 'keys_i64', 'keys_i32', 'counts_float', 'counts_np_i64',
+                 'counts_np_f64']
+
+
+def type_variants():
+    """one axis at a time from the canonical form, then flag x provenance pairs; (types dict, applies to folded?, to unfolded?, bases)"""
+    out = []
+    allb = [b_[0] for b_ in TYPE_BASES]
+    for k in TYPE_KINDS['flag']:
+        for via in ('ctor', 'attr'):
+            out.append(({'flag': k, 'via': via}, True, True, allb))
+    out.append(({'flag': 'none', 'via': 'ctor'}, False, True, allb))
+    for ax in ('data', 'mask', 'ns', 'ids', 'xx', 'post'):
+        for k in TYPE_KINDS[ax]:
+            if (ax, k) == ('mask', 'nomask'):
+                out.append(({ax: k}, False, True, allb))        # a folded spectrum always has masked entries
+            else:
+                out.append(({ax: k}, True, True, allb))
+    # does a flag of another type survive the ways a spectrum is handed on?  (flag x provenance, 2-D base)
+    for k in ('np_bool', 'int', 'arr0d'):
+        for post in TYPE_KINDS['post']:
+            out.append(({'flag': k, 'via': 'ctor', 'post': post}, True, True, ['2d']))
+    # a flag of another type together with sample sizes of another type
+    for k in ('np_bool', 'arr0d'):
+        for nk in ('arr_i64', 'list_i32', 'tuple'):
+            out.append(({'flag': k, 'via': 'attr', 'ns': nk}, True, True, ['1d', '2d']))
+    return out
+
+
+def variant_label(ty):
+    return ', '.join('%s %s' % (TYPE_WORDS[k], v) for k, v in ty.items())
+
+
+def gen_types(ctx, first_id):
+    """SYSTEMATIC (not sampled; only data values and mask positions come from the rng): every accepted kind of every argument /
+    attribute x {1-D, 2-D, 3-D} x {unfolded, folded}.  Each case is an ordinary spectrum case (all predicates and the model
+    correspondence apply to the variant itself) that also carries the canonical form's input and projection."""
+    rng = ctx.rng
+    cases = []
+    cid = first_id
+    bases = {b_[0]: b_ for b_ in TYPE_BASES}
+    for ty, on_folded, on_unfolded, names in type_variants():
+        for name in names:
+            _, shape, ns, mid = bases[name]
+            for folded in (False, True):
+                if (folded and not on_folded) or (not folded and not on_unfolded):
+                    continue
+                d = len(shape); size = _prod(shape)
+                if ty.get('data') in INT_DATA:
+                    # even integers: folding halves the ambiguous entries, and the variant must represent the data exactly
+                    data = [0.0 if rng.random() < 0.1 else 2.0 * rng.randint(1, 2000) for _ in range(size)]
+                else:
+                    data = [0.0 if rng.random() < 0.1 else rng.randint(1, 4096) / rng.choice([1, 4, 16, 64]) for _ in range(size)]
+                nomask = ty.get('mask') == 'nomask'
+                mask = [False] * size if nomask else [rng.random() < 0.15 for _ in range(size)]
+                perm = list(range(d)); rng.shuffle(perm)
+                c = {'id': cid, 'd': d, 'shape': list(shape), 'data': data, 'mask': mask, 'mask_corners': not nomask, 'folded': folded,
+                     'ns': list(ns), 'mid': list(mid), 'perm': perm, 'noskip': False, 'pop_ids': ['p%d' % k for k in range(d)],
+                     'extrap_x': 0.125, 'types': dict(ty), 'variant': variant_label(ty)}
+                if folded and cid % 2 == 0:
+                    c['extra_mask'] = [rng.randrange(size)]
+                cases.append(c); cid += 1
+    return cases
+
+
+def gen_typed_weights(ctx):
+    """_cached_projection with numpy integer arguments (all three, or one at a time) on cache keys no other stream touches
+    (proj_from 201 .. 224), so that the vector really is computed with those types; compared with exact integer binomials"""
+    items = []
+    n = 201
+    for kind in ('arr_i64', 'arr_i32'):
+        for pos in ([0, 1, 2], [0], [1], [2]):
+            for m, j in ((n // 2, n // 2), (n // 3, n - 7), (3, n // 4)):
+                items.append({'triple': [m if m <= n else n, n, j], 'kind': kind, 'pos': pos})
+                n += 1
+    return items
+
+
+def _weight_vector_bad(m, n, j, w, tol):
+    """None or why w is not the hypergeometric weight vector of (proj_to m, proj_from n, hits j): positive exactly where
+    C(m,i)C(n-m,j-i) > 0, values within tol relative (exact integer binomials)"""
+    if isinstance(w, dict):
+        return 'raised %r' % (w,)
+    if len(w) != m + 1:
+        return 'length %d' % len(w)
+    for i in range(m + 1):
+        num = comb(m, i) * comb(n - m, j - i) if j - i >= 0 else 0
+        if num == 0:
+            if w[i] != 0.0:
+                return 'entry %d is %r, the exact weight is 0' % (i, w[i])
+            continue
+        e = Fraction(num, comb(n, j))
+        if e < Fraction(1, 10 ** 307):
+            continue                    # at / below the end of the normal float64 range (2.2e-308): underflow is legitimate
+        if abs(Fraction(w[i]) - e) > tol * e:
+            return 'entry %d is %r, the exact weight is %r' % (i, w[i], float(e))
+    return None
+
+
+def check_typed_weights(ctx, items, res):
+    nbad = 0
+    for it, r in zip(items, res):
+        m, n, j = it['triple']
+        ctx.count('typed_weights_' + it['kind']); ctx.case(signature=('TW', m, n, j, it['kind'], tuple(it['pos'])))
+        what = 'numpy.%s' % ('int64' if it['kind'] == 'arr_i64' else 'int32')
+        if 'error' in r:
+            bad = 'raised ' + r['error']
+        else:
+            bad = _weight_vector_bad(m, n, j, r['first'], Fraction(1, 10 ** 10))
+            if not bad and r['again'] != r['first']:
+                bad = 'the same key asked again with Python ints gives a different vector'
+        if bad:
+            nbad += 1
+            if nbad <= 3:
+                ctx.violation('_cached_projection(%d, %d, %d) with argument(s) %r given as %s is not the hypergeometric weight vector '
+                              '(positive exactly on the window, 1e-10 relative): %s' % (m, n, j, it['pos'], what, bad),
+                              data={'kind': 'typed_weights', 'item': it, 'impl': r})
+    ctx.obligation('predicate: _cached_projection with numpy.int64 / numpy.int32 arguments (all, or one at a time; first visit of the key) '
+                   'is the exact hypergeometric weight vector (%d vectors)' % len(items), nbad == 0, 'predicate')
+
+
+TYPE_SHARD = 50          # the type-variant cases are small (<= 60 entries): few, larger files
 LARGE_SHARD = 4
 LARGE_MASK_SHARD = 30
 LARGE_MASKS = ('none', 'mid', 'quarter', 'few', 'dense')
@@ -656,7 +871,7 @@ def expected_mask(c, inp):
 
 def check_spectra(ctx, cases, res):
     byid = {r['id']: r for r in res}
-    exprs_by_d = {1: [], 2: [], 3: [], 4: [], 'M1': [], 'M2': [], 'L1': [], 'L2': []}
+    exprs_by_d = {1: [], 2: [], 3: [], 4: [], 'M1': [], 'M2': [], 'L1': [], 'L2': [], 'T1': [], 'T2': [], 'T3': [], 'T4': []}
     meta = {}
     nv = {'n': 0}
 
@@ -680,6 +895,32 @@ def check_spectra(ctx, cases, res):
                  sample={'shape': c['shape'], 'ns': c['ns'], 'folded': c['folded'], 'out_shape': out.get('shape'),
                          'out_data_head': (out.get('data') or [])[:5]})
         raised = 'error' in out
+        ty = c.get('types')
+        if ty:
+            # ---- argument / attribute types: the variant is the canonical spectrum and projects like it
+            for ax_, k_ in ty.items():
+                ctx.count('types_%s=%s' % (ax_, k_))
+            label = c.get('variant') or variant_label(ty)
+            if 'variant_error' in r:
+                ctx.obligation('generator: type variant (%s) of case %d represents the canonical input exactly' % (label, c['id']), False, 'predicate', r['variant_error'])
+                continue
+            if 'build_error' in r:
+                viol('a spectrum cannot be built when %s (accepted by the unchanged library, table TYPE_KINDS): %s' % (label, r['build_error']), c)
+                continue
+            cin, cano = r['canon_input'], r['canon_out']
+            why = same_result(inp, cin) or ('pop_ids / extrap_x differ' if (inp['pop_ids'], inp['extrap_x']) != (cin['pop_ids'], cin['extrap_x']) else None)
+            if why:
+                viol('when %s the %s spectrum of shape %r is not the spectrum of the canonical form (float64 data, bool mask array, Python bool flag): %s' % (
+                    label, 'folded' if c['folded'] else 'unfolded', c['shape'], why), c, {'variant_input': inp, 'canonical_input': cin})
+            else:
+                why = same_result(out, cano)
+                if not why and (out['pop_ids'], out['extrap_x'], out['is_spectrum']) != (cano['pop_ids'], cano['extrap_x'], cano['is_spectrum']):
+                    why = 'pop_ids / extrap_x / type differ'
+                if why:
+                    viol('Spectrum.project(%r) of a %s spectrum of shape %r depends on argument / attribute types: when %s (flag object of type %s) the result is not '
+                         'the projection of the canonical form (float64 data, bool mask array, Python bool flag, list of Python ints): %s' % (
+                             c['ns'], 'folded' if c['folded'] else 'unfolded', c['shape'], label, inp.get('folded_type'), why), c,
+                         {'variant': out, 'canonical': cano})
         if raised and not out['error'].startswith('ValueError'):
             viol('Spectrum.project raised %s for shape %r -> ns %r' % (out['error'], c['shape'], c['ns']), c, {'impl': out})
             continue
@@ -799,7 +1040,7 @@ def check_spectra(ctx, cases, res):
         else:
             oshape, ox, omk = natl(out['shape']), ql([0.0 if mk else x for x, mk in zip(out['data'], out['mask'])]), bl(out['mask'])
         xin = [x if math.isfinite(x) else 0.0 for x in inp['data']]
-        exprs_by_d[('L%d' % d) if lg else d].append((n, '(Build_scase %d %s %s %s %s %s %s %s %s)' % (
+        exprs_by_d[('L%d' % d) if lg else ('T%d' % d) if ty else d].append((n, '(Build_scase %d %s %s %s %s %s %s %s %s)' % (
             d, natl(c['ns']), b(inp['folded']), nested(xin, inp['shape'], q), nested(inp['mask'], inp['shape'], b),
             b(raised), oshape, ox, omk)))
     header = ('From Coq Require Import ZArith QArith List.\nFrom Dadi Require Import Base.Num Base.NumQ Model.Projection '
@@ -816,19 +1057,19 @@ def check_spectra(ctx, cases, res):
         else:
             results = ctx.coq_cases('s%s' % dk, header + '\nDefinition chk := scheck %d %s.' % (d, q(TOL)), exprs,
                                     'chk', 'tol 1e-11 relative per unmasked entry; masks, shapes and refusals exactly',
-                                    shard=ctx.pick(12, 40) if isinstance(dk, int) else LARGE_SHARD, kind='project')
+                                    shard=ctx.pick(12, 40) if isinstance(dk, int) else TYPE_SHARD if dk[0] == 'T' else LARGE_SHARD, kind='project')
         for n, _ in exprs:
             c = meta[n]
             rr = results.get(n)
             ok = rr is not None and rr[0]
             ctx.obligation('corr Spectrum.project%s case %d (dim %d, shape %r -> %r, folded=%s)' % (
-                ' [mask, large axis]' if maskonly else '', c['id'], d, c['shape'], c['ns'], c['folded']),
+                ' [mask, large axis]' if maskonly else (' [types: %s]' % c['variant']) if c.get('variant') else '', c['id'], d, c['shape'], c['ns'], c['folded']),
                 ok, 'correspondence', '' if ok else 'model != impl %r' % (rr,))
             if not ok:
                 nbad += 1
                 if nbad <= 3:
-                    ctx.violation('Spectrum.project(%r) on a %s spectrum of shape %r is not the %s the model gives' % (
-                        c['ns'], 'folded' if c['folded'] else 'unfolded', c['shape'],
+                    ctx.violation('Spectrum.project(%r) on a %s spectrum of shape %r%s is not the %s the model gives' % (
+                        c['ns'], 'folded' if c['folded'] else 'unfolded', c['shape'], (' (%s)' % c['variant']) if c.get('variant') else '',
                         'mask / refusal' if maskonly else 'hypergeometric expectation / mask / refusal'),
                         data={'kind': 'spectrum', 'case': c, 'impl': byid[c['id']]['out'], 'coq': rr})
 
@@ -871,12 +1112,17 @@ def run(ctx):
                 'targets {N/2, N/4, 3, 1} on that axis, data {one non-zero entry down to 2^-760, one 2^650 spike among 2^-650, magnitudes 2^-650..2^650, counts}, '
                 'each one-stage, two-stage, one axis at a time, fold identities; sample size 1020 (1-D) with masks {none, N/2, N/4}; weight vectors at 400 and 1020; '
                 'thorough tier or a changed formula line of the projection code: more sizes, both 2-D layouts and one masked entry at every position for sizes 56..400.  '
+                'ARGUMENT / ATTRIBUTE TYPES, systematic in every tier: every accepted kind (table TYPE_KINDS) of folded flag (constructor / attribute, both truth values), '
+                'data, mask, sample sizes, pop_ids, extrap_x and provenance, one at a time from the canonical form on 1-D (10), 2-D (6x5), 3-D (4x5x3) folded and unfolded '
+                'spectra, plus flag x provenance and flag x sample-size pairs; _cached_projection with numpy integer arguments on untouched keys (proj_from 201..224); '
+                '_from_count_dict with typed projections / keys / counts.  '
                 'distinct = distinct generated input; non-trivial = at least one axis shrinks')
     ctx.assumptions += ['float64 weights exp(lnC+lnC-lnC) via gammaln are compared with the exact rational at 1e-11 relative (observed <= 1e-13)',
                         'data are non-negative (counts), so entrywise relative comparison of sums is well conditioned',
                         'large axes: the mask is compared exactly with (a) the support C(n,i)C(N-n,j-i) > 0 in integer arithmetic (right-hand side of C08_mask_spreads_exactly) and (b) for sizes <= 200 the model mask through project_mask (C08_mask_only_evaluation_is_model_mask); the data with exact rationals on the tail / window-edge / bulk entries of the large axis at 1e-11 (1e-10 for sample size 1020, where the log-gamma weights carry 3e-12), the exact-Q Coq data model only for sizes <= 64 (three binomials per entry pair on binary integers)',
                         'weight * value stays a normal float64 in every generated case (no legitimate underflow): values >= 2^-760 at sizes <= 200, >= 1 at size 1020',
-                        'fold/unfold are modelled only as far as Spectrum.project uses them; their own algebra is C09']
+                        'fold/unfold are modelled only as far as Spectrum.project uses them; their own algebra is C09',
+                        'the model takes the folded status as a bool: the truth value of the `folded` attribute (bool(fs.folded)), whatever its type; argument / attribute types are compared for the kinds the unchanged library accepts (TYPE_KINDS in harness/props/c08.py lists them and what is left out: small unsigned / 8-16 bit sample sizes, uint64, floats, a nomask mask attribute, the "unspecified" marker)']
     ctx.trusted += ['MathComp binomial.v (Vandermonde, mul_bin_diag, mul_bin_down, bin_sub, bin_gt0) for the integer identities']
     broken = source_obligations(ctx)
     triples = gen_weights(ctx)
@@ -885,12 +1131,16 @@ def run(ctx):
     pre = gen_prelude(ctx)
     # large axes with sparse masks / data: always; widened to more sizes and a sweep of every masked position when a formula
     # line of the projection code changed (the search for a failing input before 'no-failing-input-found') or in the thorough tier
-    cases += gen_large(ctx, len(cases), widened=bool(broken) or not ctx.quick)
+    # (a changed line of Spectrum.project itself -- the fold/unfold wrapping, the refusals, the axis loop -- is searched by the type
+    #  variants and the ordinary spectra, not by the large-axis sweep)
+    cases += gen_large(ctx, len(cases), widened=bool([f for f in broken if f != 'project']) or not ctx.quick)
+    cases += gen_types(ctx, len(cases))
     bigw = gen_bigweights(ctx)
+    typedw = gen_typed_weights(ctx)
     if ctx.replay:
         rp = json.load(open(ctx.replay))
         inp = rp.get('input') or {}
-        triples, cases, pairs, bigw = [], [], [], []
+        triples, cases, pairs, bigw, typedw = [], [], [], [], []
         if inp.get('kind') != 'prelude':
             pre = []
         else:
@@ -904,12 +1154,15 @@ def run(ctx):
             pairs = [tuple(inp['pair'])]
         elif inp.get('kind') == 'bigweights':
             bigw = [tuple(inp['triple'])]
+        elif inp.get('kind') == 'typed_weights':
+            typedw = [inp['item']]
         else:
             triples = gen_weights(ctx)[:200]
             if not pre:                 # replay of a broken obligation without input: repeat the widened large-axis search
                 cases = gen_large(ctx, 0, widened=True)
+                cases += gen_types(ctx, len(cases))
     res = lib.run_impl('c08_impl.py', {'prelude': pre, 'weights': [list(t) for t in triples], 'spectra': cases, 'neutral': [list(p) for p in pairs],
-                                       'bigweights': [list(t) for t in bigw]}, timeout=1800)
+                                       'bigweights': [list(t) for t in bigw], 'typed_weights': typedw}, timeout=1800)
     n0 = len(ctx.violations)
     if pre:
         check_prelude(ctx, pre, res['prelude'])
@@ -917,6 +1170,8 @@ def run(ctx):
         check_weights(ctx, triples, res['weights'], res['weights_cached'])
     if bigw:
         check_bigweights(ctx, bigw, res.get('bigweights', []))
+    if typedw:
+        check_typed_weights(ctx, typedw, res.get('typed_weights', []))
     if cases:
         check_spectra(ctx, cases, res['spectra'])
     if pairs:
